@@ -4,7 +4,7 @@ CONSTANTS
   Lens = {0, 1, 3, 21, 22, 23, 1024}
   StaticLens = {0, 1, 3, 21, 22, 23}
   SkipValidate = {}
-  OrdByForm = TRUE
-  HeapLenFirst = FALSE
+  OrdByForm = FALSE
+  HeapLenFirst = TRUE
 INVARIANTS ExistsIffValid CompareByContent
 CHECK_DEADLOCK FALSE
